@@ -121,6 +121,35 @@ Sym gen_symmetric(Src& s)
 			S.a[(size_t) i][(size_t) j] = S.a[(size_t) j][(size_t) i];
 	return S;
 }
+// "block-diagonal matrices and eigenvectors with zero components" does not say that the blocks are contiguous: a simultaneous permutation of rows
+// and columns interleaves them (indices {0,2} and {1,3} couple, the first sub-diagonal is exactly zero). Called after the last other draw of a clause,
+// so that saved cases of the earlier decoder keep their meaning (an exhausted sequence leaves the matrix as it is).
+void maybe_interleave(Src& s, Sym& S)
+{
+	if(S.n < 3 || S.kind.compare(0, 14, "block_diagonal") != 0 || !s.chance(0.4))
+		return;
+	int n = S.n;
+	std::vector<int> p((size_t) n);
+	for(int i = 0; i < n; i++)
+		p[(size_t) i] = i;
+	if(s.coin())
+	{	// odd-even interleave: 0,2,4,... then 1,3,5,...
+		int k = 0;
+		for(int i = 0; i < n; i += 2)
+			p[(size_t) i] = k++;
+		for(int i = 1; i < n; i += 2)
+			p[(size_t) i] = k++;
+	}
+	else
+		for(int i = n - 1; i > 0; i--)
+			std::swap(p[(size_t) i], p[(size_t) s.range(0, i)]);
+	Rows b = S.a;
+	for(int i = 0; i < n; i++)
+		for(int j = 0; j < n; j++)
+			b[(size_t) p[(size_t) i]][(size_t) p[(size_t) j]] = S.a[(size_t) i][(size_t) j];
+	S.a = b;
+	S.kind += "_interleaved";
+}
 }	// namespace
 
 VCLAUSE(qr_decomposition, 200, 8000, 160000, "n >= 3 and the matrix is not diagonal, or the condition number exceeds 1e3, or a leading entry of a working column is exactly zero")
@@ -235,6 +264,7 @@ VCLAUSE(eigenvalues, 200, 5000, 100000, "n >= 3 and the matrix is not diagonal, 
 {
 	Src& s = c.s;
 	Sym S  = gen_symmetric(s);
+	maybe_interleave(s, S);
 	int n  = S.n;
 	bool neg = false;
 	for(auto l : S.lam)
@@ -290,6 +320,9 @@ VCLAUSE_ISOLATED(eigensystem, 200, 2500, 50000, "n >= 3 and the matrix is not di
 		c.nt();
 	c.cls(S.kind.c_str());
 	bool only_vectors = s.coin();
+	maybe_interleave(s, S);
+	if(S.kind.find("_interleaved") != std::string::npos)
+		c.cls(S.kind.c_str());
 	VLOG(c, (only_vectors ? "Eigenvectors" : "Eigensystem") << " of symmetric " << n << "x" << n << " kind=" << S.kind << " A=" << show(S.a));
 	Matrix A(S.a);
 	std::vector<double> vals;
